@@ -160,9 +160,16 @@ class VirtualPool:
         return self._pending
 
     def _perm(self, k, label):
+        """execution / completion order of a batch of k tasks: ALL k! orders for k <= 4; above that a fixed menu of 7
+        structurally different orders (identity, reversed, two rotations, two adjacent swaps, evens-then-odds)"""
         if k <= 1:
             return list(range(k))
-        perms = list(itertools.permutations(range(k)))
+        if k <= 4:
+            perms = [list(p) for p in itertools.permutations(range(k))]
+        else:
+            ident = list(range(k))
+            perms = [ident, ident[::-1], ident[1:] + ident[:1], ident[-1:] + ident[:-1], [1, 0] + ident[2:],
+                     ident[:-2] + [k - 1, k - 2], ident[0::2] + ident[1::2]]
         ch = self.choices.choose(len(perms), label) if self.choices is not None else 0
         return list(perms[ch])
 
